@@ -310,6 +310,116 @@ func init() {
 		w.Line("/-- `mux.reload` contains exactly one `m.inst.Store(…)` and it is its last statement. -/")
 		w.Line("def reloadStoresLast : Bool := %s", Bool(stores == 1 && strings.HasPrefix(last, "m.inst.Store(")))
 
+		// ---- reload builds the new instance from the new spec only
+		oldNames := map[string]bool{}
+		instLoads := 0
+		ast.Inspect(reload.Body, func(n ast.Node) bool {
+			if ce, ok := n.(*ast.CallExpr); ok && strings.HasSuffix(r.Src(ce.Fun), ".inst.Load") {
+				instLoads++
+			}
+			as, ok := n.(*ast.AssignStmt)
+			if !ok || as.Tok != token.DEFINE || len(as.Lhs) != len(as.Rhs) {
+				return true
+			}
+			for i, rhs := range as.Rhs {
+				if strings.Contains(r.Src(rhs), ".inst.Load()") {
+					if id, ok := as.Lhs[i].(*ast.Ident); ok {
+						oldNames[id.Name] = true
+					}
+				}
+			}
+			return true
+		})
+		if len(oldNames) == 0 && instLoads > 0 {
+			return fmt.Errorf("mux.reload: the loaded previous instance is not bound to a variable")
+		}
+		allowedOld := map[string]bool{}
+		for o := range oldNames {
+			allowedOld[o+".tracer"] = true
+			allowedOld[o+".tracer.Close"] = true
+			allowedOld[o+".tracer.Close()"] = true
+			allowedOld[o+".spec.Tracing"] = true
+		}
+		var oldUses []string
+		var visit func(n ast.Node)
+		visit = func(n ast.Node) {
+			ast.Inspect(n, func(x ast.Node) bool {
+				switch t := x.(type) {
+				case *ast.SelectorExpr:
+					if root := c11RootIdent(t); root != nil && oldNames[root.Name] {
+						src := r.Src(t)
+						if !allowedOld[src] {
+							oldUses = append(oldUses, src)
+						}
+						return false // report the maximal selector only
+					}
+				case *ast.Ident:
+					// a bare use (alias, argument, dereference) of the old instance
+					if oldNames[t.Name] {
+						oldUses = append(oldUses, t.Name)
+					}
+				case *ast.AssignStmt:
+					// the defining occurrence itself is not a use
+					if t.Tok == token.DEFINE {
+						for i, l := range t.Lhs {
+							if id, ok := l.(*ast.Ident); ok && oldNames[id.Name] && i < len(t.Rhs) {
+								visit(t.Rhs[i])
+								return false
+							}
+						}
+					}
+				}
+				return true
+			})
+		}
+		visit(reload.Body)
+		sort.Strings(oldUses)
+		w.Line("/-- number of `m.inst.Load()` calls in `mux.reload`. -/")
+		w.Line("def reloadInstLoads : Nat := %d", instLoads)
+		w.Line("/-- uses of the previous instance in `mux.reload` other than `.tracer`, `.tracer.Close()`, `.spec.Tracing`. -/")
+		w.Line("def reloadOldInstUses : List String := %s", StrList(oldUses))
+		// every value stored into the new instance's `cache` field is a variable defined by lru.NewARC(...)
+		arcVars := map[string]bool{}
+		ast.Inspect(reload.Body, func(n ast.Node) bool {
+			as, ok := n.(*ast.AssignStmt)
+			if !ok || as.Tok != token.DEFINE || len(as.Rhs) != 1 {
+				return true
+			}
+			if ce, ok := as.Rhs[0].(*ast.CallExpr); ok && r.Src(ce.Fun) == "lru.NewARC" {
+				if id, ok := as.Lhs[0].(*ast.Ident); ok {
+					arcVars[id.Name] = true
+				}
+			}
+			return true
+		})
+		cacheFresh := true
+		var cacheSrcs []string
+		ast.Inspect(reload.Body, func(n ast.Node) bool {
+			switch t := n.(type) {
+			case *ast.AssignStmt:
+				for i, l := range t.Lhs {
+					if c11LastField(l) == "cache" && i < len(t.Rhs) {
+						cacheSrcs = append(cacheSrcs, r.Src(t.Rhs[i]))
+						id, ok := t.Rhs[i].(*ast.Ident)
+						if !ok || !arcVars[id.Name] {
+							cacheFresh = false
+						}
+					}
+				}
+			case *ast.KeyValueExpr:
+				if k, ok := t.Key.(*ast.Ident); ok && k.Name == "cache" {
+					cacheSrcs = append(cacheSrcs, r.Src(t.Value))
+					id, ok := t.Value.(*ast.Ident)
+					if !ok || !arcVars[id.Name] {
+						cacheFresh = false
+					}
+				}
+			}
+			return true
+		})
+		w.Line("/-- everything `mux.reload` stores into a `cache` field (%s) is a variable defined by `lru.NewARC(…)`. -/", strings.Join(cacheSrcs, ", "))
+		w.Line("def reloadCacheFresh : Bool := %s", Bool(cacheFresh))
+
 		// ---- filter kinds: does Inherit mention the previous generation?
 		fdirs, err := os.ReadDir(filepath.Join(r.Root, "pkg/filters"))
 		if err != nil {
